@@ -185,13 +185,14 @@ def reference(kind, content, refdir, stats):
 # --------------------------------------------------------------------------------------
 ENTRIES = ['client', 'client_params', 'cli', 'main_argv', 'hip']
 OUT_FORMS = ['absent', 'rel', 'rel_nested', 'rel_nosuffix', 'rel_oneletter', 'rel_repeated', 'abs', 'abs_nosuffix',
-             'rel_tilde', 'rel_tildedir', 'rel_symlink', 'rel_dotdot', 'rel_dot', 'rel_upper', 'rel_dotted', 'rel_txt']
+             'rel_tilde', 'rel_tildedir', 'rel_symlink', 'rel_dotdot', 'rel_dot', 'rel_upper', 'rel_dotted', 'rel_txt', 'rel_linkdotdot']
 CWD_DIRS = ['cwd0', 'cwd with space', 'deep/x/y/z', 'decoy', 'w']
 ARGVS = [['caller'], ['pytest', '-ra', '-q'], ['prog', 'a.txt', 'b.out'], []]
 OUT_NAMES = {'rel': 'result.out', 'rel_nested': 'sub dir/nested.out', 'rel_nosuffix': 'r', 'rel_oneletter': 'o.t',
              'rel_repeated': 'out.d/out', 'abs': 'res.abs.out', 'abs_nosuffix': 'absreport', 'rel_tilde': '~run1/out.txt',
              'rel_tildedir': '~/out.txt', 'rel_symlink': 'latest.out', 'rel_dotdot': '../sibling dir/out.txt', 'rel_dot': './dot.out',
-             'rel_upper': 'Report.OUT', 'rel_dotted': 'v1.2/res.v3.out', 'rel_txt': 'case.txt'}
+             'rel_upper': 'Report.OUT', 'rel_dotted': 'v1.2/res.v3.out', 'rel_txt': 'case.txt',
+             'rel_linkdotdot': 'outlnk/../via.out'}
 FAULTS = ['enospc', 'eio', 'eacces', 'vanish', 'cancel']
 FAULT_AT = [1, 2, 3, 4, 5, 6, 7, 8, 10, 12, 15, 20, 25, 30, 40]
 # (the last one lives in the decoy directory under a name that also exists, relative to the package directory, in the
@@ -262,7 +263,7 @@ def gen_history(cs, templates, tier, force=None):
         nops = min(nops, 4)
     if theme == 'cache':
         kinds = ['run'] * 4 + ['rewrite'] * 5 + ['chdir', 'clock', 'delete']
-        entries = ['client'] * 5 + ['client_params', 'cli', 'main_argv']
+        entries = ['client'] * 4 + ['client_params'] * 2 + ['cli', 'main_argv']
         slot_tab = [0]
         c0 = [0, 2][cs.choose(2, 'cacheclient')]
         client_tab = [c0] * 6 + [1, 2 - c0]
@@ -297,13 +298,20 @@ def gen_history(cs, templates, tier, force=None):
         op = {'op': 'run', 'entry': entry, 'slot': slot, 'client': client_tab[cs.choose(len(client_tab), 'client')],
               'out': OUT_FORMS[cs.choose(len(OUT_FORMS), 'out')], 'reuse': cs.choose(2, 'reuse') == 1}
         if entry == 'client_params':
-            tw = HW.GEO_TWEAKS[cs.choose(len(HW.GEO_TWEAKS), 'ptweak')]
-            op['params'] = {tw[0]: tw[1][cs.choose(len(tw[1]), 'ptweakv')]}
-            if cs.choose(6, 'pbad') == 5:
-                op['params'] = {'Utilization Factor': '7'}
+            if theme == 'cache' and fixed_params and cs.choose(4, 'psame') != 0:
+                # the same params dict again (on top of a base file that may have been rewritten in between)
+                op['params'] = dict(fixed_params[0])
+            else:
+                tw = HW.GEO_TWEAKS[cs.choose(len(HW.GEO_TWEAKS), 'ptweak')]
+                op['params'] = {tw[0]: tw[1][cs.choose(len(tw[1]), 'ptweakv')]}
+                if cs.choose(6, 'pbad') == 5:
+                    op['params'] = {'Utilization Factor': '7'}
+                elif not fixed_params:
+                    fixed_params.append(dict(op['params']))
         ops.append(op)
         nruns += 1
 
+    fixed_params = []
     for i in range(nops):
         kind = kinds[cs.choose(len(kinds), 'op')]
         if kind == 'run' or (i == nops - 1 and nruns == 0):
@@ -655,6 +663,14 @@ class Exec:
         if form == 'absent':
             return None, os.path.join(cwd, 'HDR.out'), os.path.join(cwd, 'HDR.json')
         name = OUT_NAMES[form]
+        if form == 'rel_linkdotdot':
+            # <cwd>/outlnk -> <sandbox>/out abs/deep ; 'outlnk/../via.out' is <sandbox>/out abs/via.out for the operating system
+            tgt = os.path.join(self.sb, 'out abs', 'deep')
+            os.makedirs(tgt, exist_ok=True)
+            if not os.path.lexists(os.path.join(cwd, 'outlnk')):
+                os.symlink(tgt, os.path.join(cwd, 'outlnk'))
+            full = os.path.join(self.sb, 'out abs', 'via.out')
+            return name, full, os.path.join(self.sb, 'out abs', 'via.json')
         if form.startswith('abs'):
             arg = os.path.join(self.sb, 'out abs', name)
             full = arg
@@ -701,7 +717,7 @@ class Exec:
             arg, report_path, json_path = self.out_paths(op['out'] if op['out'].startswith('abs') else 'abs', cwd)
         elif entry == 'cli':
             arg, report_path, json_path = self.out_paths(op['out'], cwd)
-        relinput = entry == 'cli' and self.cs.choose(2, 'relinput') == 1
+        relinput = self.cs.choose(3, 'relinput') if entry == 'cli' else 0     # 0 absolute, 1 relative, 2 through a symlinked directory and '..'
         pre = {x: _file_sha(x) for x in (report_path, json_path) if x}
         calc0 = _state.get('calc_done', 0)
         if report_path and pre.get(report_path):
@@ -753,7 +769,18 @@ class Exec:
                     sys.argv = self.model_argv
             elif entry == 'cli':
                 import runpy
-                inp = os.path.relpath(path, cwd) if relinput else path
+                inp = path
+                if relinput == 1:
+                    inp = os.path.relpath(path, cwd)
+                elif relinput == 2 and os.path.exists(path):
+                    # <cwd>/lnkN -> <directory of the input>/.sub ; 'lnkN/../<name>' names the input file for the operating
+                    # system, but not for code that collapses '..' lexically
+                    sub = os.path.join(os.path.dirname(path), '.sub')
+                    os.makedirs(sub, exist_ok=True)
+                    lnk = os.path.join(cwd, f"lnk{op['slot']}")
+                    if not os.path.lexists(lnk):
+                        os.symlink(sub, lnk)
+                    inp = os.path.join(f"lnk{op['slot']}", '..', os.path.basename(path))
                 sys.argv = ['geophires_x', inp] + ([arg] if arg is not None else [])
                 try:
                     runpy.run_module('geophires_x', run_name='__main__', alter_sys=False)
